@@ -25,11 +25,37 @@ type envRoles struct {
 
 func (P *Prog) envelopeRoles() *envRoles {
 	e := &envRoles{sign: P.mustFn("SignHashEnvelope"), verify: P.mustFn("VerifyHashEnvelope")}
+	// callees of the entry point and of the helpers private to it: unexported
+	// plain functions all of whose uses are direct calls from the entry point
+	// or from other such helpers (an extracted prologue stays in view).
 	called := func(fn *ssa.Function) map[*ssa.Function]bool {
 		m := map[*ssa.Function]bool{}
-		for _, ci := range callsIn(fn, nil) {
-			if c := staticCallee(ci); c != nil && P.inPkg(c) {
+		tree := map[*ssa.Function]bool{fn: true}
+		work := []*ssa.Function{fn}
+		for len(work) > 0 {
+			f := work[0]
+			work = work[1:]
+			for _, ci := range callsIn(f, nil) {
+				c := staticCallee(ci)
+				if c == nil || !P.inPkg(c) {
+					continue
+				}
 				m[c] = true
+				if tree[c] || c.Blocks == nil || c.Signature.Recv() != nil || c.Object() == nil || c.Object().Exported() || c.Parent() != nil {
+					continue
+				}
+				private := true
+				if refs := c.Referrers(); refs != nil {
+					for _, rf := range *refs {
+						if rc, ok := rf.(ssa.CallInstruction); !ok || rc.Common().Value != ssa.Value(c) || !tree[rf.Parent()] {
+							private = false
+						}
+					}
+				}
+				if private {
+					tree[c] = true
+					work = append(work, c)
+				}
 			}
 		}
 		return m
@@ -104,7 +130,7 @@ func runC12(r *Report, tier string) {
 		// R12.3
 		for _, f := range []string{"RawProtected", "RawUnprotected"} {
 			v := projectField(hdr, f)
-			r.ob("R12.3", id+":"+f+"-nil", E.sign, x.ret, "Headers."+f+" handed to Sign1 is the nil constant").check(v.Op == "nil", f+" = nil", "Headers."+f+" handed to Sign1 is "+v.String()+": caller-supplied raw bytes would be emitted without having been validated")
+			r.ob("R12.3", id+":"+f+"-nil", E.sign, x.ret, "Headers."+f+" handed to Sign1 is the nil constant").check(v.Op == "nil" || v.Op == "zero", f+" = nil", "Headers."+f+" handed to Sign1 is "+v.String()+": caller-supplied raw bytes would be emitted without having been validated")
 		}
 		// protected map is the setter's result on ($2.Protected, &payload)
 		pv := projectField(hdr, "Protected")
@@ -185,15 +211,49 @@ func runC12(r *Report, tier string) {
 		nvx++
 		o := r.ob("R12.5", id+":pipeline", E.verify, x.ret, "a returned message has passed decode, rules, Verify(nil, verifier), the typed accessor and the digest-length check")
 		msg := x.results[0]
+		fs := exitFacts(P, x)
+		dec := P.methodOf(P.mustNamed("Sign1Message"), "UnmarshalCBOR")
+		ver := P.methodOf(P.mustNamed("Sign1Message"), "Verify")
+		after := "mod(call<" + shortFn(dec) + ">(%MSG, $1), %MSG)"
+		scan := []*ssa.Function{E.verify}
+		// the decoded local may be the one of a prologue helper (decode +
+		// rules extracted): every success exit of that helper returns the same
+		// fresh message, whose facts the summary has carried into this function
+		if msg.Op == "res" && msg.S == "0" && len(msg.Args) == 1 && msg.Args[0].Op == "call" {
+			if h := P.calleeOfTerm(msg.Args[0]); h != nil && P.inPkg(h) && h.Blocks != nil && h != E.verify {
+				var M *Term
+				same := true
+				for _, hx := range P.factsOf(h).exits {
+					if hx.kind == exitFailure {
+						continue
+					}
+					if r0 := hx.results[0]; r0.Op != "alloc" || (M != nil && !M.eq(r0)) {
+						same = false
+					} else {
+						M = r0
+					}
+				}
+				if same && M != nil {
+					old := msg
+					nf := factSet{}
+					for _, f := range fs {
+						nf.add(Fact{f.Pred.rewrite(func(t *Term) *Term {
+							if t.eq(old) {
+								return M
+							}
+							return nil
+						}), f.Val})
+					}
+					fs, msg, after = nf, M, "*%MSG"
+					scan = append(scan, h)
+				}
+			}
+		}
 		if msg.Op != "alloc" {
 			o.fail("the returned message is " + msg.String() + ", not the decoded local")
 			continue
 		}
-		fs := exitFacts(P, x)
-		dec := P.methodOf(P.mustNamed("Sign1Message"), "UnmarshalCBOR")
-		ver := P.methodOf(P.mustNamed("Sign1Message"), "Verify")
 		b0 := bindings{"MSG": msg}
-		after := "mod(call<" + shortFn(dec) + ">(%MSG, $1), %MSG)"
 		miss, _ := fs.firstMissing([]factPat{
 			fp(okp("call<" + shortFn(dec) + ">(%MSG, $1)")),
 			fp(okp("call<" + shortFn(E.rules) + ">(%MSG.Headers)")),
@@ -204,12 +264,17 @@ func runC12(r *Report, tier string) {
 		o.check(miss == "" && x.results[1].Op == "nil", "all five facts on the returned message", "missing on a success exit: "+miss)
 		// nothing rewrites payload/signature/raw headers of the message after decoding
 		var bad []string
-		for _, b := range E.verify.Blocks {
-			for _, in := range b.Instrs {
-				if st, ok := in.(*ssa.Store); ok {
-					root, path := P.terms.addrPath(st.Addr)
-					if a, ok := root.(*ssa.Alloc); ok && P.terms.of(a).eq(msg) {
-						bad = append(bad, strings.Join(path, "."))
+		for _, sf := range scan {
+			for _, b := range sf.Blocks {
+				for _, in := range b.Instrs {
+					if st, ok := in.(*ssa.Store); ok {
+						root, path := P.terms.addrPath(st.Addr)
+						if a, ok := root.(*ssa.Alloc); ok && P.terms.of(a).eq(msg) {
+							bad = append(bad, strings.Join(path, "."))
+						}
+						if sf == E.verify && len(scan) > 1 && P.terms.of(root).eq(x.results[0]) {
+							bad = append(bad, strings.Join(path, "."))
+						}
 					}
 				}
 			}
@@ -820,7 +885,7 @@ func checkEnvelopeRawNil(r *Report, rule string) {
 		}
 		for _, f := range []string{"RawProtected", "RawUnprotected"} {
 			v := projectField(c.Args[2], f)
-			r.ob(rule, id+":"+f+"-nil", E.sign, x.ret, "Headers."+f+" handed to Sign1 is the nil constant (what is emitted is what was validated)").check(v.Op == "nil", f+" = nil", "Headers."+f+" handed to Sign1 is "+v.String())
+			r.ob(rule, id+":"+f+"-nil", E.sign, x.ret, "Headers."+f+" handed to Sign1 is the nil constant (what is emitted is what was validated)").check(v.Op == "nil" || v.Op == "zero", f+" = nil", "Headers."+f+" handed to Sign1 is "+v.String())
 		}
 	}
 }
